@@ -545,6 +545,16 @@ func (e *Endpoint) Close() error {
 	e.in.discard = true
 	e.in.segs = nil
 	e.in.rbuf = nil
+	if e.in.wstall != nil {
+		// the peer is blocked in a write because we had stopped reading: closing a
+		// socket with unread data makes TCP answer with a reset, which fails that write
+		if e.in.werr == nil {
+			e.in.werr = errReset
+		}
+		close(e.in.wstall)
+		e.in.wstall = nil
+		n.Probes["blocked-writer-reset-by-close"]++
+	}
 	if e.in.wnotify != nil {
 		select {
 		case e.in.wnotify <- struct{}{}:
